@@ -8,7 +8,9 @@
 (***************************************************************************)
 EXTENDS Naturals, Sequences, TLC, Json
 
-CONSTANTS MaxN, Kinds
+CONSTANTS MaxN, Kinds,
+          Bodies   \* what else the body contains besides stepping the counter: nothing, an \ifthenelse, a nested
+                   \* parenthesised \whiledo -- none of which may change how often the outer test is evaluated
 
 (* the test as a function of the counter value c and the bound n *)
 TestVal(kind, c, n) ==
@@ -18,15 +20,15 @@ TestVal(kind, c, n) ==
       [] kind = "andnot" -> (c < n) /\ ~(c = n)             \* \value{c} < n \and \not \value{c} = n
       [] kind = "false" -> FALSE                            \* \equal{a}{b}: zero iterations
 
-VARIABLES kind, n, c, out, pc
-vars == <<kind, n, c, out, pc>>
+VARIABLES kind, body, n, c, out, pc
+vars == <<kind, body, n, c, out, pc>>
 
-Init == kind \in Kinds /\ n \in 0..MaxN /\ (kind = "notgt" => n >= 1) /\ c = 0 /\ out = 0 /\ pc = "test"
+Init == kind \in Kinds /\ body \in Bodies /\ n \in 0..MaxN /\ (kind = "notgt" => n >= 1) /\ c = 0 /\ out = 0 /\ pc = "test"
 
 Test == /\ pc = "test"
         /\ pc' = IF TestVal(kind, c, n) THEN "body" ELSE "done"
-        /\ UNCHANGED <<kind, n, c, out>>
-Body == /\ pc = "body" /\ out' = out + 1 /\ c' = c + 1 /\ pc' = "test" /\ UNCHANGED <<kind, n>>
+        /\ UNCHANGED <<kind, body, n, c, out>>
+Body == /\ pc = "body" /\ out' = out + 1 /\ c' = c + 1 /\ pc' = "test" /\ UNCHANGED <<kind, body, n>>
 Next == Test \/ Body
 Spec == Init /\ [][Next]_vars /\ WF_vars(Next)
 
@@ -35,5 +37,5 @@ RECURSIVE Least(_, _, _)
 Least(k, m, i) == IF i > MaxN + 1 \/ ~TestVal(k, i, m) THEN i ELSE Least(k, m, i + 1)
 LoopCount == pc = "done" => out = Least(kind, n, 0)
 Terminates == <>(pc = "done")
-Emit == pc = "done" => PrintT(<<"BEH", ToJson([kind |-> kind, n |-> n, iterations |-> out])>>)
+Emit == pc = "done" => PrintT(<<"BEH", ToJson([kind |-> kind, body |-> body, n |-> n, iterations |-> out])>>)
 =============================================================================
